@@ -16,6 +16,8 @@ package harness
 //                  transfer (sender = the vault, an account with code), transferFrom
 //                  (sender = a holder; OpenZeppelin 4.4 also emits an Approval log for the
 //                  reduced allowance), approve, and the same on an unregistered ERC-20.
+//   via "keeper-create" : as "keeper", but the message handed to the hooks has no callee: a contract-creation
+//                  transaction whose constructor made the calls.
 //   via "keeper" : as the repository's own hook tests do: every call is executed for real
 //                  (Erc20Keeper.CallEVM, commit) as its sender - which may be an account
 //                  without a key: the vault, another module account (a BLOCKED address) or,
@@ -248,7 +250,7 @@ func (w *c03World) c03Receipt(ctx sdk.Context, o c03Op) (bool, error) {
 			data = append(data, payload...)
 		}
 		return w.sendEvmGas(ctx, o.From, vault, data, c03VaultGasLimit)
-	case "keeper":
+	case "keeper", "keeper-create":
 		var logs []*ethtypes.Log
 		for _, l := range o.Legs {
 			method := "transfer"
@@ -262,7 +264,12 @@ func (w *c03World) c03Receipt(ctx sdk.Context, o c03Op) (bool, error) {
 			logs = append(logs, evm.LogsToEthereum(res.Logs)...)
 		}
 		to := w.c03LegContract(o.Legs[0])
-		msg := ethtypes.NewMessage(w.Parties[o.Legs[0].From].Addr, &to, 0, big.NewInt(0), 0, big.NewInt(0), big.NewInt(0), big.NewInt(0), []byte{}, ethtypes.AccessList{}, true)
+		toPtr := &to
+		if o.Via == "keeper-create" {
+			// a contract-creation transaction (no callee) whose constructor made the calls
+			toPtr = nil
+		}
+		msg := ethtypes.NewMessage(w.Parties[o.Legs[0].From].Addr, toPtr, 0, big.NewInt(0), 0, big.NewInt(0), big.NewInt(0), big.NewInt(0), []byte{}, ethtypes.AccessList{}, true)
 		if err := w.A.Erc20Keeper.Hooks().PostTxProcessing(ctx, msg, &ethtypes.Receipt{Status: ethtypes.ReceiptStatusSuccessful, Logs: logs}); err != nil {
 			return false, err
 		}
@@ -534,7 +541,11 @@ func (w *c03World) c03GenReceipt(e *Env, parties []int, cur c03Obs) c03Op {
 			legs = append(legs, c03Leg{Kind: "transfer", Pair: pair, From: from, To: to, Amt: amt.String()})
 		}
 	}
-	return c03Op{Kind: "receipt", Via: via, Pair: main, From: holder(), Legs: legs}
+	from := holder()
+	if via == "keeper" && e.Chance(0.25) {
+		via = "keeper-create" // the same calls made by the constructor of a contract-creation transaction
+	}
+	return c03Op{Kind: "receipt", Via: via, Pair: main, From: from, Legs: legs}
 }
 
 // c03ReceiptScript: scripted receipts for one pair, appended to the boundary script (the
